@@ -141,6 +141,29 @@ def gen_template(rng, compile_level):
                 lines.append(gen_free_line(rng, names))
     return {"params": params, "args": args, "lines": lines}
 
+def bounded(tpl, limit=400):
+    """every expression of the template evaluates to a small number (a region of 10^13 nucleotides is a
+    legitimate program but not one a test machine can compile)"""
+    env = dict(zip(tpl["params"], tpl["args"]))
+    def ok(e):
+        try: v = eval_ast(e, env)
+        except Exception: return True, None
+        return abs(v) <= limit, v
+    def toks_ok(toks):
+        for t in toks:
+            if t[0] == "e" and t[1] != ["v", "__lenx"]:
+                if not ok(t[1])[0]: return False
+            elif t[0] == "g":
+                if not all(toks_ok(a) for a in t[1]): return False
+        return True
+    for ln in tpl["lines"]:
+        if ln[0] == "length":
+            good, v = ok(ln[2])
+            if not good: return False
+            if v is not None: env[ln[1]] = v
+        elif not toks_ok(ln[1]): return False
+    return True
+
 def render(rng, tpl):
     """text lines (list of str incl. newlines, the last possibly without), expression table"""
     table = {}
@@ -189,6 +212,7 @@ def run(tier, seed, build):
     for i in range(n):
         compile_level = rng.random() < 0.35
         tpl = gen_template(rng, compile_level)
+        while not bounded(tpl): tpl = gen_template(rng, compile_level)
         env0 = dict(zip(tpl["params"], tpl["args"]))
         if compile_level:
             # the structure needs the length of x: an expression equal to it
